@@ -56,6 +56,9 @@ def Reg.conflicts (r : Reg V) (name : Bytes) (ty : MType) : Bool :=
   | none => false
   | some m => m.ty != ty
 
+/-- a metric of this name is registered (`_, ok := r.Metrics[name]`) -/
+def Reg.taken (r : Reg V) (name : Bytes) : Bool := (r.find name).isSome
+
 def sfxBucket := strBytes "_bucket"
 def sfxCount := strBytes "_count"
 def sfxSum := strBytes "_sum"
@@ -110,8 +113,10 @@ def Reg.getOrCreate (r : Reg V) (ty : MType) (a : GetArgs V) (now : Int) : Excep
   let companion : Bool := match ty with
     | .counter => r.histNameCollision a.name
     | .gauge => r.histNameCollision a.name
-    | .histogram => r.conflicts (a.name ++ sfxSum) ty || r.conflicts (a.name ++ sfxCount) ty || r.conflicts (a.name ++ sfxBucket) ty
-    | .summary => r.conflicts (a.name ++ sfxSum) ty || r.conflicts (a.name ++ sfxCount) ty
+    -- `checkObserverNameCollision`: a companion name that is taken at all (whatever its type), or the name being a
+    -- companion name of a registered metric (the same base-name check as for counters and gauges)
+    | .histogram => r.taken (a.name ++ sfxSum) || r.taken (a.name ++ sfxCount) || r.taken (a.name ++ sfxBucket) || r.histNameCollision a.name
+    | .summary => r.taken (a.name ++ sfxSum) || r.taken (a.name ++ sfxCount) || r.histNameCollision a.name
   if companion then .ok (.error .conflict) else
   let reserved : Bytes := match ty with
     | .histogram => strBytes "le"
